@@ -21,6 +21,8 @@ KINDS = {
     "o": "{n}: Optional[str] = 'dflt'",
     "f": "{n}: List[int] = field(default_factory=list)",
     "D": "{n}: datetime.date = datetime.date(2000, 1, 1)",
+    "z": "{n}: Optional[int] = 0",
+    "e": "{n}: Optional[datetime.date] = datetime.date(2000, 1, 1)",
 }
 
 
@@ -90,6 +92,36 @@ class L(Base, DataClassDictMixin):
     a: int = 10
     z: str = "z"
 ''',
+    "inherit3": '''
+@dataclass
+class Base(DataClassDictMixin):
+    a: int
+    port: int
+    z: int
+
+@dataclass
+class Mid(Base):
+    port: int = 80
+    z: int = field(default=5, kw_only=True)
+
+@dataclass
+class L(Mid):
+    extra: Optional[str] = None
+''',
+    "inherit_none_default": '''
+@dataclass
+class Base(DataClassDictMixin):
+    a: int
+    q: Optional[int] = 3
+
+@dataclass
+class Mid(Base):
+    q: Optional[int] = None
+
+@dataclass
+class L(Mid):
+    w: List[int] = field(default_factory=list)
+''',
     "slots": '''
 @dataclass(slots=True)
 class L(DataClassDictMixin):
@@ -122,7 +154,7 @@ def harnesses(tier, seed):
     maxn = 3 if tier == "quick" else 4
     layouts = []
     for n in range(1, maxn + 1):
-        for kinds in itertools.product("rdnofD", repeat=n):
+        for kinds in itertools.product("rdnofDze", repeat=n):
             layouts.append(kinds)
     if tier == "quick":
         import random
